@@ -299,9 +299,22 @@ def property_on_impl(argv, version):
             num = sum(c[0] * sv ** d for d, c in enumerate(cs))
             den = sum(c[1] * sv ** d for d, c in enumerate(cs))
             zg = num / den if den != 0 else complex('nan')
-            if pw != pg or not abs(zw - zg) <= 2e-5 * max(abs(zw), 1e-30) + 1e-12:
+            # the answers carry six significant digits ('%g'): first-order effect of 5e-6 per coefficient on the quotient
+            an = sum(abs(c[0] * sv ** d) for d, c in enumerate(cs)); ad = sum(abs(c[1] * sv ** d) for d, c in enumerate(cs))
+            slack = 6e-6 * (an / abs(den) + abs(num) * ad / abs(den) ** 2) if den != 0 else 0.0
+            if pw != pg or not abs(zw - zg) <= 2e-5 * max(abs(zw), 1e-30) + slack + 1e-12:
                 return ('load on pulse %d: the %d coefficient pairs written for BASIC version %s describe %r ohm at %g MHz, the model '
                         'uses %r ohm (pulse answered: %d)' % (pw, len(cs), version, zg, m.f, zw, pg))
+        lp = [(l, p) for l in m.loads for p in l.pulses]
+        for (l, p), (pg, cs) in zip(lp, rd['loads']):
+            if not hasattr(l, 'a') or len(cs) != l.degree + 1:
+                return 'load on pulse %d: %d coefficient pairs for a function of order %s' % (p.idx + 1, len(cs), getattr(l, 'degree', '?'))
+            for d, c in enumerate(cs):
+                fac = 10 ** (6 * d) if str(version) == '9' else 1
+                for got, wantc, nm in ((c[0], l.b[d] * fac, 'numerator'), (c[1], l.a[d] * fac, 'denominator')):
+                    if abs(got - wantc) > 6e-6 * abs(wantc) + 1e-300:
+                        return ('load on pulse %d: %s coefficient of s^%d is answered %r, the model has %r (in the units of BASIC '
+                                'version %s)' % (p.idx + 1, nm, d, got, wantc, version))
     # loads given as impedances: one answer per load and pulse, the value the model uses for that pulse
     if rd['loads'] and all(isinstance(x[1], complex) for x in rd['loads']):
         want = [(p.idx + 1, complex(l.impedance(m.f, p))) for l in m.loads for p in l.pulses]
